@@ -59,9 +59,16 @@ def eq_all(got, exp):
         cs.append(c)
     return z3.And(*cs) if len(cs) != 1 else cs[0]
 
-def structurally_equal(got, exp):
+def structurally_equal(got, exp, simp=False):
+    """identical terms (optionally after z3's simplifier, which flattens and sorts AC operators such as bvxor)"""
     try:
-        return all(_term(g).eq(_term(e)) for g, e in zip(got, exp))
+        if len(got) != len(exp): return False
+        for g, e in zip(got, exp):
+            a, b = _term(g), _term(e)
+            if a.eq(b): continue
+            if not simp: return False
+            if a.sort() != b.sort() or not z3.simplify(a).eq(z3.simplify(b)): return False
+        return True
     except Exception:
         return False
 def _term(x):
